@@ -57,6 +57,23 @@ def eval_expr(e, env):
         args = [eval_expr(a, env) for a in e[2]]
         if name.endswith("::abs") and len(args) == 1:
             return abs(args[0])
+        if name.endswith("::abs_diff") and len(args) == 2:
+            return abs(args[0] - args[1])
+        if name.endswith("<impl str>::contains") and len(args) == 2 and isinstance(args[0], str):
+            return args[1] in args[0]
+        if name.endswith("<impl str>::starts_with") and len(args) == 2 and isinstance(args[0], str):
+            return args[0].startswith(args[1])
+        if name.endswith("<impl str>::ends_with") and len(args) == 2 and isinstance(args[0], str):
+            return args[0].endswith(args[1])
+        if name.endswith("<impl str>::len") and isinstance(args[0], str):
+            return len(args[0].encode())
+        if name.endswith("<impl str>::is_empty") and isinstance(args[0], str):
+            return len(args[0]) == 0
+        if name.startswith("<str as std::ops::Index<std::ops::Range") and isinstance(args[0], str):
+            r = args[1]
+            if isinstance(r, tuple) and len(r) == 2 and r[1] <= len(args[0]) and args[0].isascii():
+                return args[0][r[0]:r[1]]
+            raise Unknown(e)
         if name == "std::cmp::max":
             return max(args)
         if name == "std::cmp::min":
@@ -68,6 +85,8 @@ def eval_expr(e, env):
         raise Unknown(e)
     if k in ("deref", "ref"):
         return eval_expr(e[1], env)
+    if k == "agg" and e[1].endswith("ops::Range") and len(e[3]) == 2:
+        return (eval_expr(e[3][0], env), eval_expr(e[3][1], env))
     raise Unknown(e)
 
 
